@@ -182,7 +182,7 @@ def minmod(a,b):
 
 def vanalbada(a,b):
     p = a*b
-    return np.where(p <= 1e-40, 0.,  p*(a+b)/(a**2+b**2+1e-20) )
+    return np.where(p <= 1e-40, 0.,  p/(a**2+b**2+1e-20)*(a+b) ) # divide first: p*(a+b) overflows for large slopes
 
 def vanleer(a,b):
     p = a*b
